@@ -324,6 +324,18 @@ class IKRun:
         k = g["k"]
         if k == "fk":
             T = self.fk(g["theta"])
+            if g.get("turns"):
+                # the same pose, written by the caller with a rotation vector that is whole turns longer (a yaw accumulated past
+                # one turn): tm keeps the vector it is given and its matrix is exp of it -- an ordinary goal object
+                w = rot_log(T[:3, :3])
+                a = float(np.linalg.norm(w))
+                if a > 1e-3:
+                    w2 = w * ((a + 2 * math.pi * int(g["turns"])) / a)
+                    t = tm([float(T[0, 3]), float(T[1, 3]), float(T[2, 3]), float(w2[0]), float(w2[1]), float(w2[2])])
+                    G2 = np.array(t.gTM(), float)
+                    if float(np.max(np.abs(G2 - T))) < 1e-9:       # (what tm makes of a long vector is C03's business)
+                        self.probes["goal_rotation_vector_longer_than_a_turn"] += 1
+                        return t, G2, True
             return tm(T), T, True
         if k == "beyond":
             rb = self.reach()
@@ -1075,7 +1087,10 @@ def gen_trace(seed):
                 for j in ro.sample(range(n), min(n, ro.randint(1, 2))):
                     if mins[j] <= 0.0 <= maxs[j]:
                         th[j] = 0.0
-            return {"k": "fk", "theta": [round(x, 6) for x in th]}, th
+            gd = {"k": "fk", "theta": [round(x, 6) for x in th]}
+            if ro.random() < 0.06:
+                gd["turns"] = ro.choice([1, 1, -1, 2])
+            return gd, th
         if k == "boundary":
             th = in_limits(1.0)
             for j in range(n):
@@ -1290,7 +1305,8 @@ EXPECTED_PROBES = ["success_first_attempt", "success_on_restart", "success_on_re
                    "local_clause_applicable", "move_stationary_internal_ik", "goal_is_current_reported_pose",
                    "goal_is_stale_reported_pose", "arm_with_prismatic_joint", "returned_vector_edited_by_caller", "goal_object_moved_by_caller",
                    "limits_changed_assign", "limits_changed_inplace", "move_stationary_kept_tool_pose", "move_stationary_gave_up_coherently",
-                   "move_stationary_internal_ik_judged", "goal_half_turn_from_start", "raise_left_arm_coherent"]
+                   "move_stationary_internal_ik_judged", "goal_half_turn_from_start", "raise_left_arm_coherent",
+                   "goal_rotation_vector_longer_than_a_turn"]
 
 
 def warmup():
